@@ -221,7 +221,17 @@ def render(obj, ospec, req, conf_dict, live_conf=None, observe=None):
         if req['mode'] == 'copy':
             return str(res.get_ch_text())
         if req['mode'] == 'concat':
-            return str(res + "") if len(ospec.get('fmt', '')) % 2 else str("" + res)
+            # (the sum with an empty text is a text of the caller's own: extending it leaves the result alone)
+            mine = (res + "") if len(ospec.get('fmt', '')) % 2 else ("" + res)
+            whole = str(mine)
+            mine += " <- the caller's note"
+            again = str(res)
+            return whole if again == whole else "<the result changed with the caller's copy>" + again
+        if req['mode'] == 'centred':
+            # the whole text centred in a field 7 wider than it is, the filler taken off again
+            width = len(res) + 7
+            out = format(res, "_^%d" % width)
+            return out[3:-4] if out.startswith("___") and out.endswith("____") else "<filler misplaced>" + out
         if req['mode'] == 'format':
             return format(res, "")
         if req['mode'] == 'plain':
